@@ -79,6 +79,9 @@ type GenAcc struct {
 	Key     int   `json:"key"`
 	Balance int64 `json:"balance"`
 	Abc     int64 `json:"abc,omitempty"` // balance in a second denomination "abc"
+	// PubKeyOf: key index + 1 of the public key stored on the account when it is NOT the key of its
+	// address (a genesis / state-import entry pairing an address with somebody else's key)
+	PubKeyOf int `json:"pubkey_of,omitempty"`
 }
 
 // Config is a genesis + node configuration. JSON-serialisable so replays are self-contained.
@@ -285,6 +288,9 @@ func GenesisState(cfg Config) map[string]json.RawMessage {
 			totalAbc = totalAbc.Add(sdk.NewInt(a.Abc))
 		}
 		acc.PubKey = Pub(a.Key) // auth.ValidateGenesis dereferences the key of every genesis account
+		if a.PubKeyOf > 0 {
+			acc.PubKey = Pub(a.PubKeyOf - 1)
+		}
 		ac := acc
 		accs = append(accs, &ac)
 		total = total.Add(sdk.NewInt(a.Balance))
